@@ -31,6 +31,8 @@ type svJSON struct {
 	B   *int `json:"b,omitempty"`
 	C   *int `json:"c,omitempty"`
 	Bad bool `json:"bad,omitempty"`
+	NE  bool `json:"ne,omitempty"` // nested struct present, leaf unset
+	PE  bool `json:"pe,omitempty"` // pointed-to struct present, leaf unset
 }
 
 type opT struct {
@@ -76,7 +78,7 @@ func cfgCoq(c *Cfg) string {
 	if c == nil {
 		return "(mkCfg 0 0 0)"
 	}
-	return fmt.Sprintf("(mkCfg %d %d %d)", c.A, c.B, c.C)
+	return fmt.Sprintf("(mkCfg %d %d %d)", c.A, c.b(), c.c())
 }
 func (m *msgT) coq() string {
 	switch m.K {
@@ -193,6 +195,10 @@ type world struct {
 	diverged   int // explicit labels that could not be executed as recorded
 	twoArm     int // receives of the monitor with more than one ready arm
 	divergedAt string
+	latest     []svJSON // per source, the value most recently received by the monitor (initially its Value())
+	expected   *Cfg     // what a fresh Config over the latest values builds, or the last such view that was accepted
+	skipV      bool     // delayed verification still in force (shadow of the monitor's skipVerify)
+	oracleDue  bool     // an update was received since the oracle last ran
 	blanks     map[int]*sourcewrap.Blank
 	blankLock  map[int]bool // a Watcher was handed to the Blank: SetSource is no longer allowed
 	tokens     map[int]dials.CfgSerial[Cfg]
@@ -272,7 +278,7 @@ func (w *world) start() (verifs string, res int, init string) {
 	var srcs []dials.Source
 	for i := range w.setup.Inits {
 		in := w.setup.Inits[i]
-		s := &source{r: r, idx: i, init: sv{A: ip(in.A), B: ip(in.B), C: ip(in.C), Bad: in.Bad}}
+		s := &source{r: r, idx: i, init: toSV(in)}
 		r.srcs = append(r.srcs, s)
 		switch {
 		case i < len(w.setup.Blank) && w.setup.Blank[i]:
@@ -292,7 +298,7 @@ func (w *world) start() (verifs string, res int, init string) {
 	}
 	p := dials.Params[Cfg]{OnWatchedError: w.onErr, OnNewConfig: w.onNew, SkipInitialVerification: w.setup.Skip,
 		DelayInitialVerification: w.setup.Delay, CallGlobalCallbacksAfterVerificationEnabled: w.setup.Suppress}
-	def := &Cfg{A: w.setup.Def[0], B: w.setup.Def[1], C: w.setup.Def[2]}
+	def := newCfg(w.setup.Def[0], w.setup.Def[1], w.setup.Def[2])
 	d, err := p.Config(r.ctx, def, srcs...)
 	verifs = w.takeVerifs()
 	if err != nil {
@@ -311,7 +317,40 @@ func (w *world) start() (verifs string, res int, init string) {
 		e = r.await(whoCb)
 		w.cbPos = "take"
 	}
+	w.latest = append([]svJSON{}, w.setup.Inits...)
+	w.expected = d.View()
+	w.skipV = w.setup.Delay
 	return "[" + verifs + "]", 0, w.observe(false)
+}
+
+// static source for the fresh-Config oracle
+type staticValue struct{ v svJSON }
+
+func (s staticValue) Value(ctx context.Context, t *dials.Type) (reflect.Value, error) {
+	return mkValue(t, toSV(s.v)), nil
+}
+
+// freshOracle is C05's own oracle: with the monitor back at its select, the
+// live view must deeply equal what a fresh Config builds from the same defaults
+// and every source's latest value - or, when that stack fails or (with
+// verification active) does not verify, the last view that was accepted.
+func (w *world) freshOracle() {
+	w.oracleDue = false
+	var srcs []dials.Source
+	for _, v := range w.latest {
+		srcs = append(srcs, staticValue{v})
+	}
+	p := dials.Params[Cfg]{SkipInitialVerification: true}
+	fresh, err := p.Config(context.Background(), newCfg(w.setup.Def[0], w.setup.Def[1], w.setup.Def[2]), srcs...)
+	if err == nil {
+		if f := fresh.View(); w.skipV || f.A <= f.N.B {
+			w.expected = f
+		}
+	}
+	if live := w.r.d.View(); !reflect.DeepEqual(live, w.expected) {
+		w.direct = append(w.direct, fmt.Sprintf("the view %s differs from a fresh Config over the same defaults and the sources' latest values %s",
+			cfgCoq(live), cfgCoq(w.expected)))
+	}
 }
 
 func (w *world) takeVerifs() string {
@@ -507,7 +546,7 @@ func (w *world) execStart(l label) {
 		if op.Via != "" {
 			// Blank.SetSource: Value of the inner source, then the blocking report
 			b := w.blanks[m.Src]
-			val := sv{A: ip(m.V.A), B: ip(m.V.B), C: ip(m.V.C), Bad: m.V.Bad}
+			val := toSV(m.V)
 			var inner dials.Source = innerStatic{val}
 			if op.Via == "watcher" {
 				w.blankLock[m.Src] = true
@@ -519,7 +558,7 @@ func (w *world) execStart(l label) {
 		w.spawn(t, func() (string, string) {
 			switch m.K {
 			case "update":
-				v := mkValue(s.typ, sv{A: ip(m.V.A), B: ip(m.V.B), C: ip(m.V.C), Bad: m.V.Bad})
+				v := mkValue(s.typ, toSV(m.V))
 				var err error
 				if m.Blocking {
 					err = s.wa.BlockingReportNewValue(t.ctx, v)
@@ -772,8 +811,15 @@ func (w *world) execRecv(l *label) {
 	case "ctl":
 		w.curEnable = w.ctlq[0]
 		w.ctlq = w.ctlq[1:]
+		if v := w.r.d.View(); w.skipV && v.A <= v.N.B {
+			w.skipV = false // the monitor verifies the installed config: verification is on from here
+		}
 	case "offer":
 		t := off
+		if t.op.Msg.K == "update" {
+			w.latest[t.op.Msg.Src] = t.op.Msg.V
+			w.oracleDue = true
+		}
 		l.Tid = t.tid
 		w.noteThread(t, w.r.await(t.tid))
 		if t.op.Msg.K == "update" && t.op.Msg.Blocking {
@@ -866,6 +912,9 @@ func (w *world) exec(l label) {
 		w.execCancel(l)
 	}
 	w.counts["label-"+l.K]++
+	if w.oracleDue && !w.stuck && w.monPoint == "mon.loop" {
+		w.freshOracle()
+	}
 	if !w.inTeardown {
 		w.labels = append(w.labels, l)
 	}
